@@ -3,6 +3,7 @@ package callsim
 import (
 	"encoding/json"
 	"fmt"
+	"hash/fnv"
 
 	"verifsim/evid"
 )
@@ -228,4 +229,40 @@ func Minimise(prop string, v evid.Violation, still func(json.RawMessage) bool) (
 	}
 	raw, _ := json.Marshal(cur)
 	return raw, log
+}
+
+// CrashesAlone executes every Run-like call of a recorded case alone, each in its own brand-new process, and
+// returns how many of them kill that process. A crash that also happens alone is independent of history and
+// interleaving: C02/C06/C17 compare a call with itself executed alone, so such a crash is not theirs to report.
+func CrashesAlone(raw json.RawMessage) (int, error) {
+	var c Case
+	if err := json.Unmarshal(raw, &c); err != nil {
+		return 0, err
+	}
+	n := 0
+	seen := map[uint64]bool{}
+	for _, t := range c.World.Tasks {
+		for i := range t.Calls {
+			call := &t.Calls[i]
+			if call.Inputs == nil || call.Kind == KLoad || call.Model < 0 || call.Model >= len(c.World.Models) {
+				continue
+			}
+			h := fnv.New64a()
+			h.Write(c.World.Models[call.Model].Bytes)
+			hashInputs(h, call.Inputs)
+			if seen[h.Sum64()] {
+				continue
+			}
+			seen[h.Sum64()] = true
+			func() {
+				defer func() {
+					if r := recover(); r != nil {
+						n++
+					}
+				}()
+				pristineFresh(&c.World.Models[call.Model], call.Inputs, nil)
+			}()
+		}
+	}
+	return n, nil
 }
